@@ -149,10 +149,8 @@ def c08comp(x=1, d=None, l=None):
 # the paths `off` or everywhere, seal at the paths `seal`), then performs the
 # legal operation `op` at path `at` inside `pg.as_sealed(sc)`.
 PREP_SRC = """def c08_prep(r, off=(), seal=(), at='', op='pass', sc=None):
-  def f(k, v, p):
-    if isinstance(v, pg.Symbolic) and (off == '*' or str(k) in off):
-      v.set_accessor_writable(False)
-  pg.traverse(r, f)
+  for v in r.sym_descendants(lambda v: isinstance(v, pg.Symbolic), include_self=True):
+    if off == '*' or str(v.sym_path) in off: v.set_accessor_writable(False)
   for p in seal: r.sym_get(p).seal()
   try:
     with pg.as_sealed(sc): exec(op, {'pg': pg, 'n': r.sym_get(at)})
@@ -320,24 +318,23 @@ def flag_changes(before, after):
 
 
 FLAG_WITNESS_HEAD = [
-    'def W(v, o):',
-    '  o.append(v)',
-    '  if isinstance(v, pg.Object): o.append(v.sym_init_args)',
-    '  for _, c in v.sym_items():',
-    '    if isinstance(c, pg.Symbolic): W(c, o)',
+    'def W(v):',
+    '  o = [v] + ([v.sym_init_args] if isinstance(v, pg.Object) else [])',
+    '  for c in v.sym_values():',
+    '    if isinstance(c, pg.Symbolic): o += W(c)',
     '  return o',
-    'F = lambda: {id(v): (v.is_sealed, v.accessor_writable) '
-    'for v in W(root, [])}',
-    'keep = W(root, []); b = F()']
+    'F = lambda v: (v.is_sealed, v.accessor_writable)',
+    'keep = W(root); b = [F(v) for v in keep]']
 
 
 def flag_witness(tree, setup_lines, sealed_stack, acc_stack, addr, src):
   w = [pre_of(tree), f'root = {TREES[tree][0]}'] + list(setup_lines)
   w += [f'n = {node_expr(addr)}'] + FLAG_WITNESS_HEAD + ['try:']
   sc, ind = scope_src(sealed_stack, acc_stack, '  ')
-  w += sc + [f'{ind}{src}', 'except Exception: pass', 'a = F()',
-             'bad = [(i, f, a[i]) for i, f in b.items() if a.get(i, f) != f]',
-             "assert not bad, 'protection flags of surviving nodes changed'"]
+  w += sc + [f'{ind}{src}', 'except Exception: pass',
+             'live = set(map(id, W(root)))',
+             'assert all(F(v) == f for v, f in zip(keep, b) if id(v) in live)'
+             ", 'protection flag of a surviving node changed'"]
   return '\n'.join(w)
 
 
@@ -1874,7 +1871,7 @@ def drv_protection_persists(tier, seed):
         # seeded sequences of two permitted operations at the same node
         pool_ops = [o for o in _legal_ops_at(node, k, lab, in_scope)
                     if '+=' not in o[1] and '*=' not in o[1]
-                    and '|=' not in o[1]]
+                    and '|=' not in o[1] and len(o[1]) <= 64]
         for _ in range(1 if quick else 12):
           a, b = r.choice(pool_ops), r.choice(pool_ops)
           prefixes.append((p0, 'sequence-of-2-permitted-ops',
